@@ -106,6 +106,9 @@ func (a *Accessory) Identify() {
 func (a *Accessory) AddService(s *service.Service) {
 	a.Services = append(a.Services, s)
 	a.UpdateIDs()
+
+	// A characteristic which is added to the service later gets an id too
+	s.OnCharacteristicAdded(a.UpdateIDs)
 }
 
 // UpdateIDs updates the service and characteirstic ids.
